@@ -222,7 +222,20 @@ def run(ctx):
             return "ph_" + v_.attr   # the field is the p:ph attribute of that name, as the ph_<attr> readers return it
         return None
 
-    for i, a in enumerate(call.args):
+    # `*rec`: a record star-expanded into the call stands for its fields in order
+    from sa import records as R13
+
+    args_ = []
+    for a in call.args:
+        if isinstance(a, ast.Starred):
+            r_ = cval.get(a.value.id, a.value) if isinstance(a.value, ast.Name) else a.value
+            pr_ = prog.lookup(shape_el, r_.attr) if isinstance(r_, ast.Attribute) and shape_el is not None else None
+            rec_ = R13.producer_record(prog, pr_) if pr_ is not None and pr_.kind in ("property", "lazyproperty") else None
+            if rec_ is not None:
+                args_ += [ast.Attribute(value=a.value, attr=f_, ctx=ast.Load()) for f_ in rec_[1]]
+                continue
+        args_.append(a)
+    for i, a in enumerate(args_):
         if isinstance(a, ast.Name) and a.id in reads and i < len(ap_params):
             flow[reads[a.id]] = ap_params[i]
         elif record_field(a) is not None and i < len(ap_params):
